@@ -376,7 +376,7 @@ func runC18(rc *RunCtx) {
 	// ---- others are unaffected: the bystander, then a clean connection and datagram ----
 	if !by.done {
 		rc.Failf("bystander-stalled", "a well-behaved relay running next to the adversarial clients never finished (echoes so far %q)%s", by.got, describeTasks(simrt.Snapshot()))
-	} else if by.served && !by.ok {
+	} else if by.served && !by.ok && !earlyStop { // (a relay outliving its listener is C11's claim)
 		rc.Failf("bystander-relay-broken", "a well-behaved relay running next to the adversarial clients was being served and then broke (echoes %q)", by.got)
 	} else if by.served {
 		rc.Probe("bystander_relay_completed")
@@ -461,6 +461,8 @@ func runC18(rc *RunCtx) {
 		rc.Failf("streamserve-never-returned", "the stream listener was closed and all peers are gone but StreamServe has not returned%s", describeTasks(simrt.Snapshot()))
 	} else if tsrv.handlersAtReturn > 0 {
 		rc.Failf("streamserve-returned-before-handlers", "StreamServe returned while %d connection handlers were still running", tsrv.handlersAtReturn)
+	} else if tsrv.handlersAfter > 0 {
+		rc.Failf("handler-started-after-streamserve-returned", "%d connection handlers were entered after StreamServe had returned: serving had not stopped when it said so", tsrv.handlersAfter)
 	}
 	if !usrv.Done {
 		rc.Failf("packet-handler-never-returned", "the packet listener was closed but PacketHandler.Handle has not returned%s", describeTasks(simrt.Snapshot()))
